@@ -192,7 +192,7 @@ pub fn lead_byte_char(k: usize) -> char {
 /// Contexts (what precedes) x followers (the next character) x suffixes, enumerated completely:
 /// every scanner state in which the next character is classified by a byte-level or char-level
 /// predicate, followed by every class of character.
-pub const CONTEXTS: [&str; 82] = [
+pub const CONTEXTS: [&str; 96] = [
     "", "a", "a ", "- ", "? ", "a:", "a: ", "[", "[a", "[a,", "[ ", "{", "{a", "{a:", "{a: ", "!t", "[!t", "{!t", "- !t", "!!str", "[!<x>",
     "&a", "[&a", "*a", "[*a", "- &a", "\"a", "'a", "[\"a\"", "#", "a #", "|", ">", "|2", "a: |", "%YAML 1.", "%YAML 1", "%TAG !e", "%TAG !e! t", "%F",
     "---", "...", "a\n", "- a\n ",
@@ -201,6 +201,8 @@ pub const CONTEXTS: [&str; 82] = [
     "!e!", "!", "!<", "!<a", "%TAG ! ", "%TAG !e! ", "|\n a\n", ">\n a\n\n",
     // separation by TAB only
     "a:\t", "-\t", "?\t", "[a,\t", "{a:\t", "a:\t\t", "- a:\t", "!t\t", "&a\t", "|\t", "%YAML\t", "---\t",
+    // inside escapes: the follower lands in a digit position
+    "\"\\", "\"\\x", "\"\\x4", "\"\\u", "\"\\u00A", "\"\\U0001F60", "[\"\\x", "!t%", "!t%4", "!<%", "!<a%4", "%TAG !e! t%", "%TAG !e! t%4", "- !e!%",
 ];
 pub const FOLLOW_ASCII: [char; 38] = [
     'a', 'Z', '0', '9', ' ', '\t', '\n', '\r', '\0', '-', '.', ':', '?', ',', '[', ']', '{', '}', '#', '&', '*', '!', '|', '>', '\'', '"', '%', '@', '`',
@@ -208,12 +210,23 @@ pub const FOLLOW_ASCII: [char; 38] = [
 ];
 pub const SUFFIXES: [&str; 5] = ["", "]", " x", "\n", "}: b\n"];
 
+/// Characters that a truncating cast turns into an ASCII character: U+0100 + b for every ASCII
+/// b (`c as u8`), and U+10000 + b for the YAML-significant ones (`c as u16`).
+pub const SIGNIFICANT_ASCII: &str = " \t\n\r,[]{}:#&*!|>'\"%@`-?.\\0179afAF";
+pub fn alias_follower_count() -> usize {
+    128 + SIGNIFICANT_ASCII.len()
+}
+pub fn alias_follower(k: usize) -> char {
+    let cp = if k < 128 { 0x100 + k as u32 } else { 0x1_0000 + u32::from(SIGNIFICANT_ASCII.as_bytes()[k - 128]) };
+    char::from_u32(cp).unwrap_or('\u{100}')
+}
+
 pub fn count_context_cases() -> u64 {
-    (CONTEXTS.len() * (FOLLOW_ASCII.len() + 51 + 4) * SUFFIXES.len()) as u64
+    (CONTEXTS.len() * (FOLLOW_ASCII.len() + 51 + 4 + alias_follower_count()) * SUFFIXES.len()) as u64
 }
 
 pub fn nth_context_case(i: u64) -> String {
-    let nf = (FOLLOW_ASCII.len() + 51 + 4) as u64;
+    let nf = (FOLLOW_ASCII.len() + 51 + 4 + alias_follower_count()) as u64;
     let suf = SUFFIXES[(i % SUFFIXES.len() as u64) as usize];
     let j = i / SUFFIXES.len() as u64;
     let f = (j % nf) as usize;
@@ -222,8 +235,10 @@ pub fn nth_context_case(i: u64) -> String {
         FOLLOW_ASCII[f]
     } else if f < FOLLOW_ASCII.len() + 51 {
         lead_byte_char(f - FOLLOW_ASCII.len())
-    } else {
+    } else if f < FOLLOW_ASCII.len() + 51 + 4 {
         ['\u{85}', '\u{a0}', '\u{2028}', '\u{feff}'][f - FOLLOW_ASCII.len() - 51]
+    } else {
+        alias_follower(f - FOLLOW_ASCII.len() - 51 - 4)
     };
     format!("{ctx}{follower}{suf}")
 }
